@@ -5,6 +5,7 @@ import MosnVerif.Model.Dubbo
 import MosnVerif.Model.DubboThrift
 import MosnVerif.Model.Tars
 import MosnVerif.Model.EnvelopeRef
+import MosnVerif.Model.HttpUri
 /-!
 Driver of C01 (forwarding fidelity).  Case lines:
 
@@ -172,6 +173,36 @@ def tarsCase (kind idS opsS validS fieldsS inS : String) (impl : List String) : 
     | _, _, _, _, _, _, _, _, _, _ => "E E bad-fields"
   | _, _, _, _, _ => "E E bad-case"
 
+/-! ### HTTP/1 request-URI pass-through
+
+  `uri <target> <rewrite|-> <pathVar> <pathOriginal> <query> <unescaped|E> <fasthttpPath(pathOriginal)> <RequestURI(final path)> => <out>`
+(all byte strings in hex; `rewrite` = the value a route rewrite stored in the path variable, `00` = the empty string). -/
+
+/-- bytes → String, one char per byte (injective, keeps ASCII) -/
+def latin1 (b : Bytes) : String := String.ofList (b.map (fun x => Char.ofNat x.toNat))
+
+def uriCase (tS rwS pvS poS qsS unS fhS ruS : String) (impl : List String) : String :=
+  match unhex tS, unhex pvS, unhex poS, unhex qsS, unhex fhS, unhex ruS, impl with
+  | some t, some pv, some po, some qs, some fh, some ru, [outS] =>
+    match unhex outS, (if unS == "E" then some none else (unhex unS).map some),
+          (if rwS == "-" then some none else if rwS == "00" then some (some []) else (unhex rwS).map some) with
+    | some out, some un, some rw =>
+      let O : HttpUri.Oracles :=
+        { unescape := fun _ => un.map latin1, fhPath := fun _ => latin1 fh, requestURI := fun _ => latin1 ru }
+      let v0 := HttpUri.inject O (latin1 po) (latin1 qs)
+      let v := match rw with | some p => HttpUri.rewrite v0 (latin1 p) | none => v0
+      let mout := HttpUri.buildUrl O v
+      -- the injected path variable must be the normalisation of the original path (one normaliser on both sides)
+      let agree := v0.path == latin1 pv && mout == latin1 out
+      -- reference: split the received target at its first '?'
+      let tl := t.map (fun x => Char.ofNat x.toNat)
+      let p := tl.takeWhile (· != '?')
+      let rest := tl.dropWhile (· != '?')
+      let spec := rw.isSome || latin1 out == HttpUri.expected (String.ofList p) (!rest.isEmpty) (String.ofList (rest.drop 1))
+      s!"{if agree then "A" else "D"} {if spec then "S" else "V"} {hex (mout.toList.map (fun ch => UInt8.ofNat ch.toNat))}"
+    | _, _, _ => "E E bad-uri-case"
+  | _, _, _, _, _, _, _ => "E E bad-uri-case"
+
 def run (caseToks impl : List String) : String :=
   match caseToks with
   | ["bolt", id, ops, inp] => boltCase false id ops inp impl
@@ -179,6 +210,7 @@ def run (caseToks impl : List String) : String :=
   | ["dubbo", id, ops, ok, inp] => dubboCase id ops ok inp impl
   | ["thrift", id, ops, ok, inp] => thriftCase id ops ok inp impl
   | ["tars", kind, id, ops, valid, fields, inp] => tarsCase kind id ops valid fields inp impl
+  | ["uri", t, rw, pv, po, qs, un, fh, ru] => uriCase t rw pv po qs un fh ru impl
   | _ => "E E unknown-kind"
 
 end MosnVerif.Drive.C01
